@@ -138,8 +138,11 @@ def stepD (net : Net) : List String → Net × String
       | _, _, _ => (net, "bad-op")
     | _, _, _, _, _, _, _, _, _, _ => (net, "bad-op")
   -- the node as PrimaiteGame.from_config leaves it, computed by the model of the loader from what the file declares
-  | ["load", cls, st, up, down, upCd, downCd, rs, kinds, wired, nsvc, napp, scanDur] =>
-    match Gen.Power.classTables.lookup cls, (if st = "-" then some none else (parseSt st).map some), up.toInt?, down.toInt?,
+  | ["load", cls, st, upOwn, downOwn, upDef, downDef, upCd, downCd, rs, kinds, wired, nsvc, napp, scanDur] =>
+    let optInt (t : String) : Option (Option Int) := if t = "-" then some none else t.toInt?.map some
+    let up := match optInt upOwn, optInt upDef with | some a, some b => some (effectiveDur a b) | _, _ => none
+    let down := match optInt downOwn, optInt downDef with | some a, some b => some (effectiveDur a b) | _, _ => none
+    match Gen.Power.classTables.lookup cls, (if st = "-" then some none else (parseSt st).map some), up, down,
           upCd.toInt?, downCd.toInt?, parseBool rs, kinds.toList.mapM parseKind,
           wired.toList.mapM (fun c => parseBool (String.singleton c)), nsvc.toNat? with
     | some tbl, some st, some up, some down, some upCd, some downCd, some rs, some kinds, some wired, some nsvc =>
